@@ -45,4 +45,23 @@ PROPS = {
                              "apply_COMPLEMENT", "apply_CROSS", "distinct_forests_same_rule", "operand_rechecks"],
         "assumptions": ASSUME_COMMON,
     },
+    "C05": {
+        "rule": ("each case: random domain (sets <=400 points, relations <=25 states), one value kind (MT int, MT real, EV+ int, "
+                 "EV* real), six value forests (two objects per reduction rule, random storage/memory/deletion policies) and one "
+                 "boolean forest per rule; 4-10 operations drawn from PLUS MINUS MULTIPLY DIVIDE MODULO MAXIMUM MINIMUM DIST_MIN, the "
+                 "six comparisons, four user-defined unary maps, MAX_RANGE/MIN_RANGE, DIST_INC, with operand tables mixing "
+                 "negative/zero/positive/(EV+) infinite values, equal operands, constant operands; result evaluated at every point "
+                 "against the scalar model (reals: float arithmetic, tolerance lane); deliberate zero divisors / infinite "
+                 "subtrahends must raise the documented error code; points whose scalar result is not documented (0*inf, x/inf, "
+                 "inf%x, inf/0) are skipped and counted.  non-trivial = some result differs from both operands; distinct = hash of "
+                 "operand tables, ops, shape, kind"),
+        "passes": {
+            "quick": [P("main", "asan", 1600)],
+            "thorough": [P("main", "asan", 40000)],
+        },
+        "require_counters": ["apply_PLUS", "apply_MINUS", "apply_MULTIPLY", "apply_DIVIDE", "apply_MODULO", "apply_MAXIMUM", "apply_MINIMUM",
+                             "apply_DIST_MIN", "apply_EQUAL", "apply_LESS_THAN", "apply_user_unary", "apply_RANGE", "apply_DIST_INC",
+                             "expected_error_cases"],
+        "assumptions": ASSUME_COMMON,
+    },
 }
